@@ -24,7 +24,7 @@ HIST_RULE = ("hist driver: seeded random histories (login, proxied request with 
              "(mode x forward-auth x inactivity x ACR x token lifetime); distinct = (mode, op, cookie state, store state, provider plan, status, forwarded, token written, provider contacted, post state); "
              "non-trivial = a session cookie was presented. ")
 
-SCHED_RULE = ("sched driver: 2-3 concurrent requests on one session (manual refresh, proxied request with refresh due, session info, logout, local logout, front-channel logout), each on its own replica over one miniredis, "
+SCHED_RULE = ("sched driver: 2-3 concurrent requests on one session (manual refresh, proxied request with refresh due, session info, logout, local logout, front-channel logout, and the callback of a NEW login that the provider gives the same sid = same store key), each on its own replica over one miniredis, "
               "executed under explicit schedules: all schedules with at most two preemptions of 9 process pairs (A runs i steps, B runs j, then round-robin), random 3-process schedules, crash at every step of the refresher, "
               "and the in-memory store with the provider call as scheduling point; distinct = (store, processes, executed trace); non-trivial = more than one process actually interleaves.")
 
@@ -98,8 +98,8 @@ PROPS = {
         'nontrivial': _merge(HIST_NT, {'sched': lambda f: ',' in f.get('schedule', ''), 'jar': lambda f: f.get('after') != 'callback', 'setcookie': lambda f: False, 'cookieval14': lambda f: False,
                                        'retrychain': lambda f: False, 'retryreset': lambda f: False, 'ratelimit': lambda f: False}),
         'rule': SCHED_RULE + " hist driver: every logout variant is followed by a request with the old cookie. cook driver: the jar of an RFC 6265 browser after each logout variant in 8 configurations (ingress with path prefix, SSO domain spellings) - the session cookie must be gone.",
-        'level_text': "Proof: in the small-step model (one transition = one store command / lock script / provider call of one process; any number of refreshing, reading and logging-out processes; any schedule; crashes) a deleted "
-                      "session entry is never re-created (the refresh write-back is update-only-if-present in ONE step), so for every schedule pre ++ [delete of a logout] ++ post the entry is absent at the end and at every later moment; "
+        'level_text': "Proof: in the small-step model (one transition = one store command / lock script / provider call of one process; any number of refreshing, reading and logging-out processes and of new logins landing on the same store key; any schedule; crashes) a deleted "
+                      "session entry never becomes readable with the old cookie again (the refresh write-back is update-only-if-present in ONE step, and a new login writes only under the refresh lock, so a write-back cannot land on it), so for every schedule pre ++ [delete of a logout] ++ post nothing the old cookie can read exists at the end and at every later moment; "
                       "a request that had not reached the provider by then never does. The model is tied to the real handlers step by step by executing explicit schedules on real replicas over one miniredis (pre-hook = scheduling point).",
         'level_note': "Trusted: Lean kernel; Redis command atomicity and redislock scripts (through miniredis); one store command is one atomic step (goroutine scheduling inside a command is not observable); cookie clearing is C14.",
         'technique': 'Lean 4 inductive invariant over an interleaving model (unbounded processes and schedule length) + deterministic schedule executor on real replicas',
